@@ -21,6 +21,8 @@ Un(x) == {E1(c, x) : c \in UnaryC} \cup {ArrE(n, x) : n \in {0, 1, 3, 32, 33}}
            \cup {E1(w, E1("Slice", x)) : w \in {"Box", "Ref"}} \cup {E1("Cow", E1("Slice", x))}
 Unsized == {E1(w, E0("str")) : w \in {"Box", "Ref", "Rc", "Arc", "Cow", "RefMut"}}
 Bin(x, y) == {E2("Result", x, y), E2("BTreeMap", x, y), Tup(<<x, y>>)}
+RECURSIVE Nest(_, _, _)
+Nest(c, n, x) == IF n = 0 THEN x ELSE E1(c, Nest(c, n - 1, x))
 TupleN(n) == Tup([i \in 1..n |-> IF i % 5 = 0 THEN E1("PhantomData", E0("u8")) ELSE IF i % 3 = 0 THEN E0("String") ELSE IF i % 2 = 0 THEN E0("u16") ELSE E0("u8")])
 BitVecs == {E2("BitVec", E0(s), E0(o)) : s \in {"u8", "u16", "u32", "u64"}, o \in {"Lsb0", "Msb0"}}
 D1 == UNION {Un(x) : x \in Leaves}
@@ -37,6 +39,8 @@ Corpus == Leaves \cup Unsized \cup D1 \cup D2 \cup D3 \cup UNION {Bin(x, y) : x 
           \* a marker behind EVERY transparent wrapper (and behind two), as a tuple member and as a variant payload
           \cup UNION {{Tup(<<E0("u64"), E1(w, E1("PhantomData", E0("u8"))), E0("bool")>>), E1("Option", E1(w, E1("PhantomData", E0("u16")))),
                        Tup(<<E1(w, E1("Box", E1("PhantomData", Unit))), E0("u8")>>), Tup(<<E1("Arc", E1(w, E1("PhantomData", Unit))), E0("u8")>>)} : w \in Transparent}
+          \* DEEP nesting: a chain of 70 / 100 types each first met while all the outer ones are still under construction
+          \cup {Nest("Option", 70, E0("u8")), Nest("Vec", 100, E0("bool")), Tup(<<E0("u16"), Nest("Option", 70, E0("u16"))>>)}
           \* two same-named, same-path user types, alone and inside built-in constructors
           \cup UNION {{L, E1("Vec", L), E1("Option", L), E1("Box", L), ArrE(2, L), E2("Result", L, E0("u8"))} : L \in {[c |-> "Local", a |-> <<>>, n |-> 1], [c |-> "Local", a |-> <<>>, n |-> 2]}}
           \cup {Tup(<<[c |-> "Local", a |-> <<>>, n |-> 1], [c |-> "Local", a |-> <<>>, n |-> 2]>>)}
